@@ -46,7 +46,7 @@ func c17Groups(job byte, v int) []*targetgroup.Group {
 		g := &targetgroup.Group{Source: string(job)}
 		for _, n := range names {
 			ls := model.LabelSet{model.AddressLabel: model.LabelValue(fmt.Sprintf("%c-%s:1", job, n))}
-			if n == "d" {
+			if strings.HasPrefix(n, "d") {
 				ls["drop"] = "yes"
 			}
 			g.Targets = append(g.Targets, ls)
@@ -66,6 +66,9 @@ func c17Groups(job byte, v int) []*targetgroup.Group {
 		return mk("t2")
 	case 5:
 		return mk("t1", "t2", "t3")
+	case 7:
+		// two members that relabeling drops, next to an active one
+		return mk("t1", "d", "d2")
 	case 6:
 		// the same target in two groups of the job (two discovery sources reporting one endpoint)
 		a, b := mk("t1"), mk("t1")
@@ -77,7 +80,7 @@ func c17Groups(job byte, v int) []*targetgroup.Group {
 
 func c17Active(v int) []string {
 	switch v {
-	case 1, 3, 6:
+	case 1, 3, 6, 7:
 		return []string{"t1"}
 	case 2:
 		return []string{"t1", "t2"}
@@ -90,6 +93,9 @@ func c17Active(v int) []string {
 func c17Dropped(v int) []string {
 	if v == 3 {
 		return []string{"d"}
+	}
+	if v == 7 {
+		return []string{"d", "d2"}
 	}
 	return nil
 }
@@ -261,7 +267,7 @@ func (m *c17Model) view() c17View {
 
 func c17Alphabet(thorough bool) []c17Op {
 	var ops []c17Op
-	vals := []int{-1, 0, 1, 2, 3, 4, 6}
+	vals := []int{-1, 0, 1, 2, 3, 4, 6, 7}
 	for _, a := range vals {
 		for _, b := range vals {
 			if a == -1 && b == -1 {
@@ -284,7 +290,7 @@ func c17Alphabet(thorough bool) []c17Op {
 			}
 			a, aok := o.U["A"]
 			b, bok := o.U["B"]
-			if _, hasC := o.U["C"]; hasC || (aok && bok && (a == 2 || a == -1 || a == 4 || a == 6) && (b == 3 || b == -1 || b == 1)) {
+			if _, hasC := o.U["C"]; hasC || (aok && bok && (a == 2 || a == -1 || a == 4 || a == 6) && (b == 3 || b == -1 || b == 1 || b == 7)) {
 				red = append(red, o)
 			}
 		}
